@@ -7,7 +7,8 @@ CONSTANTS
   Messages <- MCMessages
   MaxMsgs = 4
   ReaderIgnoresSegment = FALSE
-INVARIANT Resolved
-INVARIANT CachesAgree
+
+
 VIEW HView
+ACTION_CONSTRAINT Emit
 CHECK_DEADLOCK FALSE
